@@ -140,6 +140,21 @@ ShiftProg(n, k, s) ==
      \o [i \in 1..n |-> DW(<<"0", BS, P(i), BS, "+", "0">>)] \o <<DB(<<"ARGCOUNT">>), L(<<>>, "M2", <<"ALLARGS">>), ENDM,
        L(<<>>, "M1", Cs([i \in 1..k |-> N(i)]))>>]
 
+\* the argument list as a positional sequence that SHIFT walks through: k formals, e excess arguments of which each
+\* one independently is empty (mask[j] = FALSE) or not; after s SHIFTs the body uses every formal that still has a
+\* place in the list, ARGCOUNT and ALLARGS (shown by M2: its own ARGCOUNT and one DW per element).  An empty excess
+\* argument must keep its place: `m 1,2,,4` with two formals gives <> for the second formal after one SHIFT.
+ShiftHoleProg(k, mask, s) ==
+  LET e == Len(mask)
+      args == [i \in 1..(k + e) |-> IF i <= k THEN N(i) ELSE IF mask[i - k] THEN N(10 + i - k) ELSE <<>>]
+      live == Min(k, Max(k + e - s, 0))
+  IN [f \in {"a.asm"} |->
+        <<L(<<"M2">>, "MACRO", <<>>), DB(<<"ARGCOUNT">>), L(<<>>, "IRP", <<"Q", ",", "0", ",", "ALLARGS">>), DW(<<"0", BS, "Q", BS, "+", "0">>), ENDM, ENDM,
+          L(<<"M1">>, "MACRO", Cs(Params(k)))>> \o [i \in 1..s |-> L(<<>>, "SHIFT", <<>>)]
+        \o [i \in 1..live |-> DW(<<"0", BS, P(i), BS, "+", "0">>)] \o <<DB(<<"ARGCOUNT">>), L(<<>>, "M2", <<"ALLARGS">>), ENDM,
+          L(<<>>, "M1", Cs(args))>>]
+Masks(n) == UNION {[1..e -> BOOLEAN] : e \in 1..n}
+
 \* EXITM inside IF inside a macro / loop; the statements after it must not appear, the IF stack must be cut
 ExitProg(kind, n, at) ==
   LET guard == <<L(<<>>, "IF", <<"C1", ">", ToString(at)>>), DW(<<"C1">>), L(<<>>, "EXITM", <<>>), DW(<<"99">>), L(<<>>, "ENDIF", <<>>)>>
